@@ -140,6 +140,7 @@ def run_single(csvpath_text, method="collect", n=None, *, policy=None, delimiter
     out["script"] = script
     out["calls"] = calls
     out["variables"] = p.variables
+    out["vars_canon"] = None
     out["printouts"] = rp.entries
     out["stdout"] = list(STDOUT_LOG)
     out["errors"] = [[e.line_count, e.error.__class__.__name__] for e in (p.errors or [])]
